@@ -120,7 +120,7 @@ func FindAnchors(prog *Program) *Anchors {
 			a.MatchEval = f
 		case isBoolErr(sig) && namedIs(p0, grammarPath, "CollectionExpression") && a.CollEval == nil:
 			a.CollEval = f
-		case sig.Results().Len() == 3 && isEmptyIface(sig.Results().At(0).Type()) && isBool(sig.Results().At(1).Type()) && isErrorType(sig.Results().At(2).Type()):
+		case lookupShape(sig):
 			// the lookup proper takes (datum, path, options...); helpers it is split into share the result shape only
 			if sig.Variadic() && sig.Params().Len() == 3 && (a.GetValue == nil || !a.GetValue.Signature.Variadic()) {
 				a.GetValue = f
@@ -431,4 +431,64 @@ func (a *Anchors) coerceKindArg(args []*Sym) *Sym {
 		return args[ki]
 	}
 	return nil
+}
+
+// lookupShape: the result shape of the value lookup — (interface{}, bool, error), or the first two grouped in a small
+// struct: (struct{value interface{}; present bool}, error).
+func lookupShape(sig *types.Signature) bool {
+	rs := sig.Results()
+	if rs.Len() == 3 && isEmptyIface(rs.At(0).Type()) && isBool(rs.At(1).Type()) && isErrorType(rs.At(2).Type()) {
+		return true
+	}
+	if rs.Len() == 2 && isErrorType(rs.At(1).Type()) {
+		vf, pf := lookupFields(rs.At(0).Type())
+		return vf != "" && pf != ""
+	}
+	return false
+}
+
+// lookupFields: the names of the value and presence fields of a grouped lookup result.
+func lookupFields(t types.Type) (valueField, presentField string) {
+	st, ok := t.Underlying().(*types.Struct)
+	if !ok || st.NumFields() != 2 {
+		return "", ""
+	}
+	for i := 0; i < 2; i++ {
+		switch {
+		case isEmptyIface(st.Field(i).Type()):
+			valueField = st.Field(i).Name()
+		case isBool(st.Field(i).Type()):
+			presentField = st.Field(i).Name()
+		}
+	}
+	return
+}
+
+// lookupModel: the result of the value lookup, in the shape its signature has.
+func (a *Anchors) lookupModel(val, present, err *Sym) *Sym {
+	rs := a.GetValue.Signature.Results()
+	if rs.Len() == 3 {
+		return &Sym{K: sTuple, Kids: []*Sym{val, present, err}}
+	}
+	vf, pf := lookupFields(rs.At(0).Type())
+	return &Sym{K: sTuple, Kids: []*Sym{{K: sStruct, F: map[string]*Sym{vf: val, pf: present}, T: rs.At(0).Type()}, err}}
+}
+
+// lookupResults: (value, present, error) of a return of the value lookup (or of a function with its result shape).
+func lookupResults(sig *types.Signature, rs []*Sym) (val, present, err *Sym, ok bool) {
+	if len(rs) == 3 {
+		return rs[0], rs[1], rs[2], true
+	}
+	if len(rs) == 2 && sig.Results().Len() == 2 {
+		vf, pf := lookupFields(sig.Results().At(0).Type())
+		if vf == "" {
+			return nil, nil, nil, false
+		}
+		g := rs[0]
+		if g.K == sMkIface {
+			g = g.A
+		}
+		return getPath(g, []string{vf}), getPath(g, []string{pf}), rs[1], true
+	}
+	return nil, nil, nil, false
 }
